@@ -277,3 +277,86 @@ func checkNoStreamCap(c *Ctx, res *report.Result, rule string) {
 		res.Hold(rule, "no gRPC server of the module caps concurrent streams", "", "no grpc.MaxConcurrentStreams call in the shipped code")
 	}
 }
+
+// checkLazyTLSWrappers (O10.13): the connection wrappers the two mux providers apply in their single accept / dial
+// loop only construct the TLS connection (tls.Server / tls.Client); nothing in package transport/mux runs the
+// handshake itself. The handshake then happens under yamux's first ping, whose write timeout bounds it. A handshake
+// run inside the accept loop is bounded only by the provider's lifetime: one peer that connects and stays silent
+// parks the loop and the permit it holds, and no dead session is ever replaced.
+func checkLazyTLSWrappers(c *Ctx, res *report.Result, rule string) {
+	sp, err := c.Prog.SSAPkg("transport/mux")
+	if err != nil {
+		res.Undec(rule, "transport/mux", "", err.Error())
+		return
+	}
+	wraps := 0
+	for _, f := range c.Prog.RepoFuncs() {
+		if f.Package() != sp || !isShippedFunc(f) {
+			continue
+		}
+		for _, call := range flow.Calls(f) {
+			sc := flow.StaticCallee(call.Common())
+			if sc == nil || sc.Pkg == nil || sc.Pkg.Pkg.Path() != "crypto/tls" {
+				continue
+			}
+			switch sc.Name() {
+			case "Server", "Client":
+				wraps++
+			case "Handshake", "HandshakeContext":
+				res.Viol(rule, shortFn(f)+": the TLS wrapper does not run the handshake", instrPos(c.Prog, call), "the handshake is run explicitly in the provider's connection path: it is bounded only by the provider's lifetime, so a peer that connects and never speaks parks the single accept / dial loop and the permit it holds - a session that dies afterwards is never replaced")
+			}
+		}
+	}
+	if wraps < 2 {
+		res.Undec(rule, "TLS wrappers of the mux providers", "", fmt.Sprintf("%d tls.Server / tls.Client calls found, 2 confirmed by hand", wraps))
+	} else {
+		res.Hold(rule, "the mux providers' TLS wrappers only construct the connection", "", fmt.Sprintf("%d wrappers, no explicit handshake in transport/mux", wraps))
+	}
+}
+
+// checkInputBlobNotWritten (O14.11 / O12.10): translateOneDataBlob hands back either the blob it was given,
+// untouched, or the serializer's new blob: it never stores into a field of its input. The serializer writes proto3
+// and labels its result so; copying only the new bytes into the old blob leaves a blob that says JSON and holds
+// proto3.
+func checkInputBlobNotWritten(c *Ctx, res *report.Result, rule string) {
+	f := resolve(c, res, rule, anchor{"interceptor", "", "translateOneDataBlob"})
+	if f == nil {
+		return
+	}
+	var blob *ssa.Parameter
+	for _, p := range f.Params {
+		if strings.HasSuffix(p.Type().String(), "DataBlob") {
+			blob = p
+		}
+	}
+	if blob == nil {
+		res.Undec(rule, "translateOneDataBlob: blob parameter", fnPos(c.Prog, f), "not found")
+		return
+	}
+	bad := ""
+	for _, b := range f.Blocks {
+		for _, ins := range b.Instrs {
+			st, ok := ins.(*ssa.Store)
+			if !ok {
+				continue
+			}
+			fa, ok := st.Addr.(*ssa.FieldAddr)
+			if !ok {
+				continue
+			}
+			base := flow.Strip(flow.ResolveLoad(fa.X))
+			isInput := base == ssa.Value(blob)
+			if ph, isPhi := base.(*ssa.Phi); isPhi {
+				for _, e := range ph.Edges {
+					if flow.Strip(flow.ResolveLoad(e)) == ssa.Value(blob) {
+						isInput = true
+					}
+				}
+			}
+			if isInput {
+				bad = "field " + flow.FieldName(fa.X.Type(), fa.Field) + " of the input blob is written at " + instrPos(c.Prog, st)
+			}
+		}
+	}
+	res.Check(bad == "", rule, "translateOneDataBlob never writes into the blob it was given", fnPos(c.Prog, f), "returns the input untouched or the serializer's own blob", bad+": the re-serialized events are proto3, so a blob that keeps its old encoding label (JSON) and receives the new bytes cannot be decoded by the receiving cluster - the renamed keys, the mapped names and everything else in it are lost")
+}
